@@ -87,7 +87,7 @@ def history(dc, sc, res, rng, kind, cfg, label, scale):
                 for _ in range(rng.randrange(4, 14)):
                     k = gen.pick(rng, keys)
                     op = gen.pick(rng, ['get', 'get', 'contains', 'getitem', 'touch', 'incr', 'add', 'pop', 'delete',
-                                        'set', 'peekitem', 'pull', 'peek', 'len'])
+                                        'set', 'peekitem', 'pull', 'pull', 'peek', 'len', 'push'])
                     if op == 'get':
                         call('get', k, 'DEF', expire_time=rng.random() < 0.5, tag=rng.random() < 0.3)
                     elif op in ('contains', 'getitem', 'delete'):
@@ -108,7 +108,10 @@ def history(dc, sc, res, rng, kind, cfg, label, scale):
                     elif op == 'len':
                         call('len')
                     elif kind == 'cache':
-                        if op == 'peekitem':
+                        if op == 'push':
+                            call('push', k, prefix=gen.pick(rng, [None, 'q']), side=gen.pick(rng, ['front', 'back']),
+                                 expire=gen.pick(rng, [gen.ttl_exact(0.3), gen.ttl_exact(0.8), None]))
+                        elif op == 'peekitem':
                             call('peekitem', last=rng.random() < 0.5, expire_time=True)
                         else:
                             call(op, prefix=gen.pick(rng, [None, 'q']), side=gen.pick(rng, ['front', 'back']),
